@@ -1155,6 +1155,19 @@ func runC08(c *run.Ctx, s *kit.Summary) {
 		s.Count("chain:with_unencodable_record")
 	}
 	runChains(c, s, far)
+	// every result with the same header keys, 2–3 values each, first values from a tiny pool and later values
+	// unique (consecutive responses of one server): through every chain that contains a CSV or JSON hop
+	var srv []chainCase
+	for _, ch := range [][]string{{"csv"}, {"csv", "json"}, {"json", "csv"}, {"gob", "csv", "json"}, {"csv", "gob", "csv"}, {"json"}, {"csv", "csv"}} {
+		rs := make([]gen.ResultSpec, 6+r.Pick(10))
+		for i := range rs {
+			rs[i] = gen.InterResult(r, uint64(i), -1)
+			rs[i].Headers = gen.ServerHeaders(r, uint64(i))
+		}
+		srv = append(srv, chainCase{Records: rs, Start: encodings[r.Pick(3)], Chain: ch})
+		s.Count("chain:repeating_first_header_values")
+	}
+	runChains(c, s, srv)
 	// long inputs (hundreds to thousands of small records, far beyond any batch of 64/128 results), every
 	// target, the last step also into a consumer that falls behind
 	var long []chainCase
